@@ -2,7 +2,8 @@
 (***************************************************************************)
 (* Checkpoint / resume as a twin run (C09).  Copy A (variables of           *)
 (* ShampooOpt) runs uninterrupted; copy B receives the same inputs and, at  *)
-(* one arbitrary point, is stopped: its DURABLE part (what                  *)
+(* arbitrary points (any number of times: second-generation checkpoints),   *)
+(* is stopped: its DURABLE part (what                  *)
 (* distributed_state_dict carries: per-block tensors, step counters,        *)
 (* param_groups) is saved and loaded into a freshly constructed optimizer,  *)
 (* i.e. every VOLATILE variable (selector caches, masked lists, failure     *)
@@ -30,7 +31,7 @@ SetHyperBoth(gi, key, v) ==
   /\ stB' = [stB EXCEPT ![gi].hy[key] = v] /\ raisedB' = "none" /\ UNCHANGED loadedAt
 
 SaveLoad ==
-  /\ loadedAt = -1
+  /\ loadedAt < nCalls                    \* not twice at the same point; any number of generations along a run
   /\ stB' = [gi \in Groups |-> Fresh(Cfg[gi], stB[gi])]
   /\ loadedAt' = nCalls
   /\ UNCHANGED <<vars, raisedB>>
